@@ -142,7 +142,20 @@ func (r *itpRig) snapshot() string {
 		}
 		return fmt.Sprint(v)
 	}
-	return fmt.Sprintf("src=%v fragments=%v known=%v simple=%s temporal=%s buffer=%q", src, keys(frag), keys(known), id(f["simpleStore"]), id(f["temporalStore"]), f["buffer"])
+	// what every live fragment would restore when it is popped
+	var cps []string
+	if frag != nil {
+		for k, v := range frag.M {
+			fo, _ := v.(*ordabs.Obj)
+			if fo == nil {
+				continue
+			}
+			kc, _ := fo.Fields["knownCheckpoint"].(*ordabs.Map)
+			cps = append(cps, fmt.Sprintf("%v:%v/%s/%s", frag.Keys[k], keys(kc), id(fo.Fields["simpleCheckpoint"]), id(fo.Fields["temporalCheckpoint"])))
+		}
+	}
+	sort.Strings(cps)
+	return fmt.Sprintf("src=%v fragments=%v known=%v simple=%s temporal=%s buffer=%q checkpoints=%v", src, keys(frag), keys(known), id(f["simpleStore"]), id(f["temporalStore"]), f["buffer"], cps)
 }
 
 func idOf(v ordabs.Value) string {
